@@ -568,7 +568,7 @@ func Execute(sc *Scenario, base, index uint64, tier string, suppress []string, t
 					r.fill(res, true)
 					OnCut(res)
 				}
-				os.Stderr.WriteString(fmt.Sprintf("sim: simulated-time cap exceeded in scenario %s run %d (seed %d)\n", sc.Name, index, base))
+				os.Stderr.WriteString(fmt.Sprintf("sim: simulated-time cap exceeded in scenario %s run %d (seed %d); goroutines:\n  %s\n", sc.Name, index, base, BlockedSummary()))
 				os.Exit(4)
 			}
 			capTimer := time.AfterFunc(capSim, func() { r.cut("simulated-time cap") })
